@@ -292,8 +292,11 @@ func reachProbes(w *world, trace []*simkit.RPCRecord, st map[string]int) {
 			if between {
 				st["probe.topology-change-between-partial-requests"]++
 			}
-			if rec.Op.Pad > 0 || rec.Op.Rep > 0 {
+			if rec.Op.Pad > 0 || rec.Op.Rep > 0 || rec.Op.Fill > 0 {
 				st["probe.oversized-batch"]++
+				if rec.Op.Fill > 0 {
+					st["probe.batch-with-distinct-filler-keys"]++
+				}
 			}
 			if (k == "scan" || k == "rscan") && rec.Err == "" && len(rec.Keys) == rec.Op.Limit && len(mine) > 0 {
 				// did the limit run out exactly where a region ended? (the last request of the call
